@@ -36,7 +36,8 @@ type cliStream struct {
 	sendErr         error // when set, Send fails with it
 	closed          bool  // CloseSend called
 	eof             chan struct{}
-	ignoreCloseSend bool // a peer that does not answer the half-close
+	ignoreCloseSend bool          // a peer that does not answer the half-close
+	gate            chan struct{} // non-nil: Send blocks until closed (a peer that is slow to read what the proxy sends it)
 }
 
 func newCliStream(ctx context.Context) *cliStream {
@@ -57,6 +58,16 @@ func (c *cliStream) Recv() (*repResp, error) {
 }
 func (c *cliStream) Send(r *repReq) error {
 	c.mu.Lock()
+	gate := c.gate
+	c.mu.Unlock()
+	if gate != nil {
+		select {
+		case <-gate:
+		case <-c.ctx.Done():
+			return c.ctx.Err()
+		}
+	}
+	c.mu.Lock()
 	defer c.mu.Unlock()
 	if c.sendErr != nil {
 		return c.sendErr
@@ -74,6 +85,18 @@ func (c *cliStream) CloseSend() error {
 		}
 	}
 	return nil
+}
+
+// SetGate(true): from now on Send blocks (the peer does not read); SetGate(false) releases every blocked Send.
+func (c *cliStream) SetGate(closed bool) {
+	c.mu.Lock()
+	defer c.mu.Unlock()
+	if closed && c.gate == nil {
+		c.gate = make(chan struct{})
+	} else if !closed && c.gate != nil {
+		close(c.gate)
+		c.gate = nil
+	}
 }
 func (c *cliStream) Sent() []*repReq {
 	c.mu.Lock()
